@@ -229,17 +229,34 @@ Fixpoint encode (t : tree) (v : value) {struct t} : res (list Z) :=
       | VVariant i x =>
         (* variant.index.to_bytes(8, 'little') then subtypes[variant.index] *)
         do n <- enc_int 8 false i;
-        prefix n ((fix pick (subs : list tree) (k : nat) : res (list Z) :=
+        prefix n ((fix pick (subs : list tree) (k : Z) : res (list Z) :=
            match subs with
            | [] => Err EIndex
-           | s :: subs' => match k with O => encode s x | S k' => pick subs' k' end
-           end) subs (Z.to_nat i))
+           | s :: subs' => if k =? 0 then encode s x else pick subs' (k - 1)
+           end) subs i)
       | _ => Err EEncode
       end
     end
   end.
 
 (* ---------- decode ---------- *)
+
+(* n iterations of a fallible step, stopping at the first error.  Recursion is on the binary
+   representation of the count, so a garbage count costs nothing before the first step fails
+   (the extracted code never builds a unary number of that size); like `for _ in range(n)`,
+   it does run n steps when every step succeeds. *)
+Fixpoint iter_pos {S : Type} (p : positive) (f : S -> res S) (s : S) : res S :=
+  match p with
+  | xH => f s
+  | xO q => do s' <- iter_pos q f s; iter_pos q f s'
+  | xI q => do s1 <- f s; do s2 <- iter_pos q f s1; iter_pos q f s2
+  end.
+
+Definition iter_z {S : Type} (n : Z) (f : S -> res S) (s : S) : res S :=
+  match n with Zpos p => iter_pos p f s | _ => Ok s end.
+
+(* BytesIO.read(n): min(n, remaining) bytes *)
+Definition clampn (n : Z) (bs : list Z) : nat := Z.to_nat (Z.min n (Z.of_nat (List.length bs))).
 
 Fixpoint val_eqb (a b : value) {struct a} : bool :=
   match a, b with
@@ -297,8 +314,8 @@ Fixpoint decode (get : Z -> option Z) (t : tree) (bs : list Z) {struct t} : res 
     | Some CStr =>
       if no_subs subs then
         let '(n, r) := dec_int 8 false bs in
-        match utf8_decode (take (Z.to_nat n) r) with
-        | Some s => Ok (VStr s, drop (Z.to_nat n) r)
+        match utf8_decode (take (clampn n r) r) with
+        | Some s => Ok (VStr s, drop (clampn n r) r)
         | None => Err EValue
         end
       else Err EDecode
@@ -312,36 +329,32 @@ Fixpoint decode (get : Z -> option Z) (t : tree) (bs : list Z) {struct t} : res 
       match subs with
       | [sub] =>
         let '(n, r) := dec_int 8 false bs in
-        (fix loop (k : nat) (bs : list Z) (acc : list value) : res (value * list Z) :=
-           match k with
-           | O => Ok (VSeq (rev acc), bs)
-           | S k' => do (x, bs') <- decode get sub bs; loop k' bs' (x :: acc)
-           end) (Z.to_nat n) r []
+        do (bs', acc) <- iter_z n (fun st : list Z * list value =>
+                                     let '(bs, acc) := st in
+                                     do (x, bs2) <- decode get sub bs; Ok (bs2, x :: acc)) (r, []);
+        Ok (VSeq (rev acc), bs')
       | _ => Err EDecode
       end
     | Some CSet =>
       match subs with
       | [sub] =>
         let '(n, r) := dec_int 8 false bs in
-        (fix loop (k : nat) (bs : list Z) (acc : list value) : res (value * list Z) :=
-           match k with
-           | O => Ok (VSet acc, bs)
-           | S k' => do (x, bs') <- decode get sub bs; loop k' bs' (set_add x acc)
-           end) (Z.to_nat n) r []
+        do (bs', acc) <- iter_z n (fun st : list Z * list value =>
+                                     let '(bs, acc) := st in
+                                     do (x, bs2) <- decode get sub bs; Ok (bs2, set_add x acc)) (r, []);
+        Ok (VSet acc, bs')
       | _ => Err EDecode
       end
     | Some CMap =>
       match subs with
       | [kt; vt] =>
         let '(n, r) := dec_int 8 false bs in
-        (fix loop (k : nat) (bs : list Z) (acc : list (value * value)) : res (value * list Z) :=
-           match k with
-           | O => Ok (VMap acc, bs)
-           | S k' =>
-             do (key, bs1) <- decode get kt bs;
-             do (x, bs2) <- decode get vt bs1;
-             loop k' bs2 (map_put key x acc)
-           end) (Z.to_nat n) r []
+        do (bs', acc) <- iter_z n (fun st : list Z * list (value * value) =>
+                                     let '(bs, acc) := st in
+                                     do (key, bs1) <- decode get kt bs;
+                                     do (x, bs2) <- decode get vt bs1;
+                                     Ok (bs2, map_put key x acc)) (r, []);
+        Ok (VMap acc, bs')
       | _ => Err EDecode
       end
     | Some CTuple =>
@@ -352,15 +365,13 @@ Fixpoint decode (get : Z -> option Z) (t : tree) (bs : list Z) {struct t} : res 
          end) subs bs []
     | Some CVariant =>
       let '(i, r) := dec_int 8 false bs in
-      (fix pick (subs : list tree) (k : nat) : res (value * list Z) :=
+      (fix pick (subs : list tree) (k : Z) : res (value * list Z) :=
          match subs with
          | [] => Err EIndex
          | s :: subs' =>
-           match k with
-           | O => do (x, r') <- decode get s r; Ok (VVariant i x, r')
-           | S k' => pick subs' k'
-           end
-         end) subs (Z.to_nat i)
+           if k =? 0 then do (x, r') <- decode get s r; Ok (VVariant i x, r')
+           else pick subs' (k - 1)
+         end) subs i
     end
   end.
 
@@ -516,12 +527,12 @@ Fixpoint wt (get : Z -> option Z) (t : tree) (v : value) {struct t} : bool :=
     | Some CVariant =>
       match v with
       | VVariant i x =>
-        (0 <=? i) && (i <? Z.of_nat (List.length subs)) &&
-        (fix pick (subs : list tree) (k : nat) : bool :=
+        u64 i && (i <? Z.of_nat (List.length subs)) &&
+        (fix pick (subs : list tree) (k : Z) : bool :=
            match subs with
            | [] => false
-           | s :: subs' => match k with O => wt get s x | S k' => pick subs' k' end
-           end) subs (Z.to_nat i)
+           | s :: subs' => if k =? 0 then wt get s x else pick subs' (k - 1)
+           end) subs i
       | _ => false
       end
     end
